@@ -141,6 +141,9 @@ func (r *report) selftest(ld *loaded) {
 		hh := &Harness{Name: h.Name, Prop: h.Prop, Fn: h.Fn, St: newStats()}
 		for i := 0; i < n; i++ {
 			reason := ex.runPath(hh, nil)
+			for try := 0; try < 60 && (reason == "assume false" || reason == "assume infeasible" || reason == "skipped"); try++ {
+				reason = ex.runPath(hh, nil) // resample: the random values did not satisfy the harness's assumptions
+			}
 			if reason != "" && reason != "panic" && reason != "exit" {
 				r.selfSkipped++
 				if r.selfSkipWhy == nil {
